@@ -10,7 +10,8 @@ SPEC = dict(
          'Document part: a key-based fixture signature over the hash of a real 45-byte document under SHA-256 / SHA-384 / SHA-512 / RIPEMD-160 with the context-wide anchors '
          '(publications URL served by the fixture): KSI_Signature_verifyDocument, KSI_verifySignature and KSI_verifyDataHash accept the document / its hash and refuse every '
          'single-bit change of the document (360), every other length (prefixes, one byte more, empty) and the document hashed with another algorithm. '
-         'Further: document-bytes helpers (KSI_Signature_verifyDocument, KSI_verifySignature, KSI_verifyDataHash with context-wide anchors), KSI_Signature_fromFileWithPolicy, the context cleaned and used again.',
+         'Further: document-bytes helpers (KSI_Signature_verifyDocument, KSI_verifySignature, KSI_verifyDataHash with context-wide anchors), KSI_Signature_fromFileWithPolicy, the context cleaned and used again.'
+         ' Mixed forms: the hash as an explicit argument with the level in the caller\'s context, and the reverse.',
     bounds=dict(quick='signature variants {lc 3, RFC3161} for all six policies (+ lc 254 internal, lc 1 key-based and general, three-link first chain internal; lc 1 also general)', thorough='all nine signature variants x six policies'),
     technique='bounded-exhaustive enumeration of document hashes (all single-bit flips) and levels (0..300 + boundaries) x policies on the compiled code against the stated verdict table',
     level_text='All single-bit perturbations of the document digest, all levels 0..300 and the 32/64-bit boundary levels are verified under each of the six verifying policies with a matching anchor; the verdict (OK / FAIL GEN-01 / GEN-04 / GEN-03 / refused) is compared with the table stated by the property.',
